@@ -43,6 +43,19 @@ def rxIn? (f r o p s : String) : Option RxIn :=
   | some f, some r, some o, some p, some s => some ⟨f, r, o, p, s⟩
   | _, _, _, _, _ => none
 
+/-- whole-packet decision with the Annex D key: "gbc2|gac2 source|sender F(ego) rhl oversize pdr se(source) se(sender)" -/
+def pkt2 (gbc : Bool) (key f r o p sSrc sSnd : String) : String :=
+  match (if key = "source" then some SeKey.source else if key = "sender" then some SeKey.sender else none),
+        se? sSrc, se? sSnd with
+  | some k, some sSrc, some sSnd =>
+    let se := match k with | .source => sSrc | .sender => sSnd
+    match rat? f, nat? r, bool? o, bool? p with
+    | some f, some r, some o, some p =>
+      let i : RxIn := ⟨f, r, o, p, se⟩
+      "[" ++ " ".intercalate ((if gbc then recvGBC i else recvGAC i).map actStr) ++ "]"
+    | _, _, _, _ => "bad-op"
+  | _, _, _ => "bad-op"
+
 def areaStep (_ : Unit) (t : List String) : Unit × String :=
   match t with
   | ["F", s, a, b, x, y] =>
@@ -52,6 +65,24 @@ def areaStep (_ : Unit) (t : List String) : Unit × String :=
       | .error _ => ((), "ZeroDivisionError")
       | .ok v => ((), s!"{sgn v} {b01 (decide (inside s a b x y))} {b01 (decide (onBorder s a b x y))}")
     | _, _, _, _, _ => ((), "bad-op")
+  | ["Floc", s, a, b, c, sn, n, e] =>
+    -- F of a point given in the local (north, east) frame for the azimuth unit vector (c, sn):
+    -- "<c²+s²=1?> <sign of FvalCode> <inside rotated shape> <on its border> <sign of the unrotated (pre-F1) evaluation>"
+    match shape? s, rat? a, rat? b, rat? c, rat? sn, rat? n, rat? e with
+    | some s, some a, some b, some c, some sn, some n, some e =>
+      if degenerate s a b then ((), "ZeroDivisionError") else
+      let p := toFrame c sn n e
+      ((), s!"{b01 (decide (c * c + sn * sn = 1))} {sgn (FvalCode s a b c sn n e)} {b01 (decide (inside s a b p.1 p.2))} {b01 (decide (onBorder s a b p.1 p.2))} {sgn (FvalUnrotated s a b n e)}")
+    | _, _, _, _, _, _, _ => ((), "bad-op")
+  | ["frame", c, sn, n, e] =>
+    -- the code's frame coordinates of the local offsets (n, e) for the unit vector (c, sn): "<c²+s²=1?> <x> <y>" (exact rationals)
+    match rat? c, rat? sn, rat? n, rat? e with
+    | some c, some sn, some n, some e =>
+      let p := codeFrame c sn n e
+      ((), s!"{b01 (decide (c * c + sn * sn = 1))} {p.1.num}/{p.1.den} {p.2.num}/{p.2.den}")
+    | _, _, _, _ => ((), "bad-op")
+  | ["gbc2", key, f, r, o, p, sSrc, sSnd] => ((), pkt2 true key f r o p sSrc sSnd)
+  | ["gac2", key, f, r, o, p, sSrc, sSnd] => ((), pkt2 false key f r o p sSrc sSnd)
   | ["size", s, a, b, m] =>
     match shape? s, rat? a, rat? b, nat? m with
     | some s, some a, some b, some m => ((), b01 (oversize s a b m))
